@@ -301,6 +301,62 @@ def test_cli_oracle():
     expect(failed(c20.judge_cli(argv, p, out([], end=("sysexit", 2), calls=[]))) == [], "malformed rejected")
     expect(failed(c20.judge_cli(argv, p, out([rec(P, "script.py", ["a"])]))) == [], "malformed but ran the script with exactly what follows it: not demanded otherwise")
     expect(failed(c20.judge_cli(argv, p, out([rec(P, "script.py", [])]))) == ["C20.cli.malformed"], "malformed and ran with wrong arguments")
+    # the target's own arguments include empty strings: they must arrive, in place (reference and oracle)
+    argv = ("-d", "x", "-m", "mod", "", "--label", "", "last", "0", " ", "--")
+    p = ref.parse(argv)
+    expect(p.status == "ok" and p.target == (M, "mod") and p.targs == ("", "--label", "", "last", "0", " ", "--"), f"empty target arguments: {p}")
+    expect(c20.cli_shape(p) == "target=module,targs=n-with-empty-string", c20.cli_shape(p))
+    expect(failed(c20.judge_cli(argv, p, out([rec(M, "mod", p.targs)], calls=["x"]))) == [], "empty arguments handed on: pass")
+    expect(failed(c20.judge_cli(argv, p, out([rec(M, "mod", [a for a in p.targs if a])], calls=["x"]))) == ["C20.cli.args"], "empty arguments dropped: fail")
+    argv = ("script.py", "", "")
+    p = ref.parse(argv)
+    expect(p.target == (P, "script.py") and p.targs == ("", ""), f"only empty arguments: {p}")
+    po = {"end": ("exit", 0), "records": [rec(P, "script.py", ["", ""])], "stderr_tail": ""}
+    expect(failed(c20.judge_cli_process(argv, p, po)) == [], "process entry point, exact arguments: pass")
+    po["records"] = [rec(P, "script.py", [""])]
+    expect(failed(c20.judge_cli_process(argv, p, po)) == ["C20.cli.args"], "process entry point, one empty argument lost: fail")
+    po["records"] = []
+    expect(failed(c20.judge_cli_process(argv, p, po)) == ["C20.cli.args"], "process entry point, target did not run: fail")
+    po["records"] = [rec(P, "script.py", ["", ""], orig=True)]
+    expect(failed(c20.judge_cli_process(argv, p, po)) == ["C20.cli.fake_on"], "process entry point, fake off: fail")
+    # every constructed line is well-formed and names a target; the target's arguments are the tail over TARG_TOKENS
+    for tier in ("quick", "thorough"):
+        lines = c20.proc_lines(ref.DEFAULT_TABLE, tier) + (c20.targ_lines(ref.DEFAULT_TABLE, tier) if tier == "quick" else [])
+        for line in lines:
+            q = ref.parse(line)
+            if not (q.status == "ok" and q.target in ((P, "script.py"), (M, "mod")) and set(q.targs) <= set(c20.TARG_TOKENS)):
+                expect(False, f"constructed line {line}: {q}")
+                break
+        expect(any("" in ref.parse(li).targs for li in lines), "constructed lines: empty string present")
+        for fn in (c20.proc_lines, c20.targ_lines) if tier == "quick" else (c20.proc_lines,):
+            li = fn(ref.DEFAULT_TABLE, tier)
+            expect(len(set(li)) == len(li), f"{fn.__name__}: no duplicates")
+
+
+def test_conns_oracle():
+    from checks import c20
+
+    def obs(conns, again=None, storage="db_path", seq=("block-thread", "new-thread"), **kw):
+        o = {"block": "main-thread", "openers": list(seq), "exit": "normal", "storage": storage, "enter_raised": None,
+             "opened": [("ok", "[(1,)]")] * len(seq), "exit_raised": None, "restored": (True, True), "conns": list(conns),
+             "again": again if again is not None else {"enter": None, "select 1": "[(1,)]", "rows": "[(0,), (1,)]"}}  # fmt: skip
+        o.update(kw)
+        return o
+
+    closed = "closed:snowflake.connector.errors.DatabaseError:250002"
+    expect(failed(c20.judge_conns(obs([closed, closed]))) == [], "all closed, data there: pass")
+    v = c20.judge_conns(obs([closed, "open"]))
+    expect(failed(v) == ["C20.closed"], "connection of the new thread still open: fail")
+    expect([k for c, k, f, _d in v if f] == ["opened-by=new-thread,exit=normal,storage=db_path"], "class names who opened it")
+    expect(failed(c20.judge_conns(obs([closed, closed], again={"enter": None, "select 1": "[(1,)]", "rows": "[(0,)]"}))) == ["C20.closed.storage_reusable"], "committed row missing: fail")
+    expect(failed(c20.judge_conns(obs([closed, closed], again={"enter": "duckdb.IOException"}))) == ["C20.closed.storage_reusable"], "cannot enter again: fail")
+    expect(failed(c20.judge_conns(obs([closed, closed], storage="memory", again={"enter": None, "select 1": "[(1,)]"}))) == [], "memory: rows not demanded")
+    expect(failed(c20.judge_conns(obs([closed, closed], restored=(False, True)))) == ["C20.restore_after_exit"], "not restored: fail")
+    expect(failed(c20.judge_conns(obs([closed, closed], exit_raised="x.Y"))) == ["C20.exit_clean"], "exit raised: fail")
+    for b in c20.CONN_BLOCK_THREADS:
+        seqs = c20.conn_sequences(b, "quick")
+        expect(len(seqs) == len(set(seqs)) == sum(len(c20.conn_openers(b)) ** k for k in (1, 2)), f"conn sequences {b}")
+    expect(("new-thread",) in c20.conn_sequences("main-thread", "quick") and ("main-thread",) in c20.conn_sequences("worker-thread", "quick"), "other-thread openers present")
 
 
 def test_patch_oracle():
@@ -453,7 +509,7 @@ def test_enumeration():
 
 
 if __name__ == "__main__":
-    for t in (test_table, test_derived_table, test_against_argparse, test_cli_oracle, test_patch_oracle, test_enumeration):
+    for t in (test_table, test_derived_table, test_against_argparse, test_cli_oracle, test_conns_oracle, test_patch_oracle, test_enumeration):
         print(t.__name__)
         t()
     print("FAILED" if FAILS else "ok", f"({len(FAILS)} failures)")
